@@ -39,7 +39,7 @@ var allLevels = func() []int8 {
 }()
 
 // boundary levels: both ends of int8, the neighbours of the named range, every named level
-var boundaryLevels = []int8{-128, -4, -3, -2, lDebug, lInfo, lWarn, lError, lDPanic, lPanic, lFatal, lInvalid, lInvalid + 1, 127}
+var boundaryLevels = []int8{-128, -4, -3, -2, lDebug, lInfo, lWarn, lError, lDPanic, lPanic, lFatal, lInvalid, lInvalid + 1, 19, 20, 21, 127}
 
 var feMsg = func() []string {
 	var m []string
@@ -49,7 +49,7 @@ var feMsg = func() []string {
 	return m
 }()
 
-var atomicPhases = []int8{lInfo, lError, lDebug, lInvalid, -3} // the last one is below the named range: entries at -3 and -2 are delivered
+var atomicPhases = []int8{lInfo, lError, lDebug, lInvalid, -3, 20} // -3 is below the named range: entries at -3 and -2 are delivered; 20 is above it: entries at 6..19 are not
 
 type treeStats struct {
 	trees, refused, valid, optionVariants int64
@@ -321,7 +321,7 @@ func main() {
 	}
 
 	run.Assume = []string{
-		fmt.Sprintf("levels: all 256 int8 values for trees of <= %d nodes, the 14 boundary levels {-128,-4,-3,-2,debug..fatal,invalid,invalid+1,127} for larger trees; Enabled(l) is compared at all 256 values for every tree", fullUpTo),
+		fmt.Sprintf("levels: all 256 int8 values for trees of <= %d nodes, the 17 boundary levels {-128,-4,-3,-2,debug..fatal,invalid,invalid+1,19,20,21,127} for larger trees; Enabled(l) is compared at all 256 values for every tree", fullUpTo),
 		"the shared AtomicLevel only takes the seven named levels and InvalidLevel (zap documents nothing for an AtomicLevel set to another out-of-range value)",
 		"samplers: one whose budget (first = MaxInt32 per tick of 1h) is never exhausted and must be transparent, one that drops every named-level entry (first=0, thereafter=0), and a first-only one (first=1, thereafter=0) driven twice within one tick; which entries a sampler keeps in general is property C11",
 		"a sugared *w call with malformed context (non-string key, dangling key) is a probe for disabled entries only: where no leaf accepts the entry nothing at all may be observed; it is not driven at Panic / Fatal, whose calls must run their terminal action even when disabled and then report the malformed context in Error entries of their own (unchanged zap does; the statement does not say)",
@@ -339,7 +339,7 @@ func main() {
 		"traces_validated_against_impl": hs.sequences,
 		"evaluations":                   ts.calls + ts.levelChecks + os1.calls + sb.calls + hs.steps + hs.levelChecks,
 		"distinct_nontrivial":           ts.nontrivial,
-		"rule": fmt.Sprintf("(a) every core tree with <= %d nodes over leaves {observer, JSON IO core over a counting sink} x 9 enablers and wrappers Tee(2-3 ordered children), NewIncreaseLevelCore x 9 enablers, RegisterHooks, NewSampler (budget never exhausted), a dropping sampler (first=0, thereafter=0: declines every named-level entry in Check), NewLazyWith, With; trees whose IncreaseLevel must be refused are checked for the error (and, at the root, for the no-effect behaviour of the zap.IncreaseLevel option) and not evaluated further; each accepted tree (x 5 values of the shared AtomicLevel when it uses it, the last one below the named range) is driven at all 256 levels (<= %d nodes) or 14 boundary levels through %d front ends (raw Core.Check+Write, Logger.Log/Check+Write/named methods, SugaredLogger Log/Logf/Logw/Logln and named methods in four styles, zapgrpc Info/Warning/Error/Fatal/Print families) and Enabled at all 256 levels, LevelOf, Logger.Level, V(0..3); non-trivial = the reference delivers the entry to some leaf at some evaluated level and withholds it from some leaf at some level; all enumerated trees are structurally distinct, distinct_behaviours counts distinct reference delivery tables. (a') %d shapes around a first-only sampler (first=1, thereafter=0), each driven twice per level with the same message on a fresh tree per front end (3 front ends; sampling budgets are per level and message): the second call must reach nothing below the sampler. (a'') hook siblings: %d cases = leaf {observer[debug], io[warn]} x {zapcore.RegisterHooks, zap.Hooks option} x a parent with k = 0..8 hooks registered one at a time x 2 or 3 siblings derived from that one parent object with 1 or 2 own hooks each x every order of using the siblings and the parent, each at 8 levels through 3 front ends: exactly the hooks on the path of the logger used fire, once each, iff the leaf accepts - also when the first hook of every registration returns an error (k <= 3, two hooks per sibling). (b) %s",
+		"rule": fmt.Sprintf("(a) every core tree with <= %d nodes over leaves {observer, JSON IO core over a counting sink} x 9 enablers and wrappers Tee(2-3 ordered children), NewIncreaseLevelCore x 9 enablers, RegisterHooks, NewSampler (budget never exhausted), a dropping sampler (first=0, thereafter=0: declines every named-level entry in Check), NewLazyWith, With (applied after a With(nil) and a With of an empty slice, which must change nothing); trees whose IncreaseLevel must be refused are checked for the error (and, at the root, for the no-effect behaviour of the zap.IncreaseLevel option) and not evaluated further; each accepted tree (x 6 values of the shared AtomicLevel when it uses it: info, error, debug, invalid, -3 below the named range, 20 above it) is driven at all 256 levels (<= %d nodes) or 17 boundary levels through %d front ends (raw Core.Check+Write, Logger.Log/Check+Write/named methods, SugaredLogger Log/Logf/Logw/Logln and named methods in four styles, zapgrpc Info/Warning/Error/Fatal/Print families) and Enabled at all 256 levels, LevelOf, Logger.Level, V(0..3); non-trivial = the reference delivers the entry to some leaf at some evaluated level and withholds it from some leaf at some level; all enumerated trees are structurally distinct, distinct_behaviours counts distinct reference delivery tables. (a') %d shapes around a first-only sampler (first=1, thereafter=0), each driven twice per level with the same message on a fresh tree per front end (3 front ends; sampling budgets are per level and message): the second call must reach nothing below the sampler. (a'') hook siblings: %d cases = leaf {observer[debug], io[warn]} x {zapcore.RegisterHooks, zap.Hooks option} x a parent with k = 0..8 hooks registered one at a time x 2 or 3 siblings derived from that one parent object with 1 or 2 own hooks each x every order of using the siblings and the parent, each at 8 levels through 3 front ends: exactly the hooks on the path of the logger used fire, once each, iff the leaf accepts - also when the first hook of every registration returns an error (k <= 3, two hooks per sibling). (b) %s",
 			maxN, fullUpTo, len(frontEnds), os1.shapes, sb.cases, hs.rule),
 		"samples":                    samples,
 		"exhaustive":                 true,
